@@ -58,7 +58,47 @@ def check_long(case):
     return ["long_path", "weighted", "op_" + case["op"]]
 
 
+def check_dense(case):
+    """add_edges / remove_edges on an almost complete DAG with 60..70 nodes in a scrambled causal order."""
+    import sempler.utils as utils
+    from props.gcommon import has_cycle_big
+    p, a, k = case["p"], case["a"], case["k"]
+    order = [(a * i + 1) % p for i in range(p)]
+    pos = np.empty(p, dtype=int)
+    pos[order] = np.arange(p)
+    A = (pos[:, None] < pos[None, :]).astype(float)
+    for (i, j) in case["missing"]:
+        A[i, j] = A[j, i] = 0
+    if case.get("weighted"):
+        A = A * np.where((np.add.outer(np.arange(p), np.arange(p)) % 2) == 0, -2.0, 0.5)
+    A = A.astype({"float16": np.float16, "float": float, "int": np.int64, "float32": np.float32}[case["dtype"]])
+    keep = A.copy()
+    pat = A != 0
+    m = int(pat.sum())
+    cap = p * (p - 1) // 2 - m
+    what = "%s_edges(almost complete DAG on %d nodes (%s, %d edges), %d)" % (case["op"], p, case["dtype"], m, k)
+    fn = utils.add_edges if case["op"] == "add" else utils.remove_edges
+    o = lib(fn, A, k, random_state=case["seed"])
+    top = cap if case["op"] == "add" else m
+    if k > top:
+        must_raise(o, ValueError, what + " [infeasible]")
+        return ["dense_big", "infeasible", "boundary_over", "weighted"]
+    got = np.asarray(must(o, what)) != 0
+    if case["op"] == "add":
+        if got.shape != (p, p) or (pat & ~got).any() or int(got.sum()) != m + k or np.diag(got).any() or (got & got.T).any() or has_cycle_big(got):
+            raise Violation("add_wrong_dense", "%s returned %d edges (expected %d), supergraph=%r, two-cycle=%r, cyclic=%r"
+                            % (what, int(got.sum()), m + k, not (pat & ~got).any(), bool((got & got.T).any()), has_cycle_big(got)))
+    else:
+        if got.shape != (p, p) or (got & ~pat).any() or int(got.sum()) != m - k:
+            raise Violation("remove_wrong_dense", "%s left %d edges (expected %d)" % (what, int(got.sum()), m - k))
+    if not np.array_equal(A, keep):
+        raise Violation("input_modified", "%s modified its argument" % what)
+    return ["dense_big", "feasible", "weighted"] + (["boundary_max"] if k == top else [])
+
+
 def check(case):
+    if case["sub"] == "dense_big":
+        return check_dense(case)
     if case["sub"] == "long_path":
         return check_long(case)
     import sempler.utils as utils
@@ -195,6 +235,8 @@ def _hyp_check(case):
 
 def plan(tier, seed):
     jobs = [{"sub": "grid_exh", "ps": [1, 2, 3], "shard": 0, "nshards": 1, "seed": seed, "cost": 2}]
+    for n in range(12 if tier == "quick" else 60):
+        jobs.append({"sub": "dense_big", "seed": seed, "index": n, "cost": 7})
     for n, (p, op) in enumerate([(1200, "add"), (1300, "remove")] + ([(1500, "add"), (2000, "add")] if tier == "thorough" else [])):
         jobs.append({"sub": "long_path", "seed": seed, "p": p, "op": op, "cost": 50})
     for k in range(16):
@@ -208,7 +250,27 @@ def plan(tier, seed):
 
 def run(job):
     acc = Acc(job["sub"])
-    if job["sub"] == "long_path":
+    if job["sub"] == "dense_big":
+        n = job["index"]
+        p = [60, 64, 66, 70, 61, 65][n % 6]
+        a = next(x for x in range(p // 3 + (job["seed"] + n) % 7, p) if np.gcd(x, p) == 1)
+        nm = [3, 5, 1, 30, 8, 2][(n // 2) % 6]
+        missing = []
+        for t in range(nm):
+            i, j = (5 * t + n + job["seed"]) % p, (9 * t + 3 * n + 1) % p
+            if i != j and [i, j] not in missing and [j, i] not in missing:
+                missing.append([i, j])
+        op = "add" if n % 3 else "remove"
+        k = [len(missing), 1, len(missing) + 1, max(len(missing) - 1, 0)][n % 4] if op == "add" else [1, 12, 0][n % 3]
+        case = {"sub": "dense_big", "p": p, "a": int(a), "missing": missing, "k": k, "op": op, "seed": (job["seed"] + n) % 100,
+                "dtype": ["float", "float16", "int", "float16", "float32"][n % 5], "weighted": n % 2 == 0}
+        try:
+            acc.record(case, check(case), True, by_construction=True, sample=(n == 1))
+        except Violation as v:
+            acc.record(case, [], False)
+            acc.violation(case, v)
+        acc.exhaustive = False
+    elif job["sub"] == "long_path":
         p = job["p"]
         a = next(x for x in range(p // 3 + job["seed"] % 11, p) if np.gcd(x, p) == 1)
         case = {"sub": "long_path", "p": p, "a": int(a), "k": 20, "op": job["op"], "seed": job["seed"] % 1000}
